@@ -227,7 +227,7 @@ def gen_case(rng, route='api'):
 
 def gen_pairs(shard, nshards, tier, seed):
     rng = random.Random(seed)
-    for _ in range(2200 if tier == 'quick' else 90000):
+    for _ in range(10000 if tier == 'quick' else 250000):
         yield gen_case(rng)
 
 
@@ -254,7 +254,7 @@ def units(tier):
     return [
         Unit('pairs-api', 'enum', shards=16, gen=gen_pairs),
         Unit('int-all', 'enum', shards=16, gen=gen_ints, exhaustive=True),
-        Unit('ident-eval', 'hyp', shards=16, examples={'quick': 120, 'thorough': 4000},
+        Unit('ident-eval', 'hyp', shards=16, examples={'quick': 300, 'thorough': 6000},
              strategy=strat_ident),
     ]
 
@@ -274,4 +274,12 @@ REGRESSIONS = [
     _i('00000001', '0100', 'eval'),
 ]
 
-KILLS = []
+KILLS = [
+    'seeded/C05 (Float.sign tests the sign bit before the zero exponent) => unary.sgn',
+    'numbers.Float._add_den: sticky/zero_flag made to depend on which operand came first => commute.add',
+    'values.mul: promote to double only if both operands are doubles => type.mul, promote.mul, neutral.x*1',
+    'numbers.Float.sign: exponent-0 test replaced by all-bytes-zero test (dirty zeros get a sign) => unary.sgn',
+    'values.add: integer left operand no longer promoted to float => promote.add (int-all)',
+    'numbers.Float.imul: revert 9479e0ab => mul.double.underflow-band (regression case + pairs-api)',
+    'NOTE: removing the operand swap in _add_den altogether makes Float._normalise loop forever on a negative mantissa; the per-case wall limit then marks cases inconclusive (by framework rule not a violation)',
+]
